@@ -184,6 +184,23 @@ def check_mutant(ctx, base, rule, pos, h, nontriv, model, ok_games):
     if res["after"]["msg"] != "Game solved" or res["before"]["msg"] != "Game solved":
         ctx.violation("batch-continues", inp, {"before": res["before"]["msg"], "after": res["after"]["msg"]})
         return
+    # the malformed game right after its own well-formed original (they may compare equal as Python values:
+    # 2 == 2.0 == True inside nested lists and tuples): it is still refused
+    d2 = {"twin": copy.deepcopy(base), "broken": copy.deepcopy(h)}
+    try:
+        with quiet(), time_limit(10.0):
+            res2 = cr.run_games(d2)
+    except Timeout:
+        res2 = None
+    except Exception as e:  # noqa
+        ctx.violation("batch-records-message", dict(inp, batch="after its well-formed original"), {"outcome": type(e).__name__, "msg": str(e)[:200]})
+        return
+    if res2 is not None:
+        m2 = res2.get("broken", {}).get("msg", "")
+        if not (isinstance(m2, str) and m2.startswith("Error while solving the game")) or res2["broken"]["rewards"] is not None:
+            ctx.violation("batch-records-message", dict(inp, batch="after its well-formed original"),
+                          {"msg": m2, "original": res2.get("twin", {}).get("msg")})
+            return
     if model is not None and wire.in_c09_domain(h):
         cat = category(first_msg)
 
